@@ -20,6 +20,7 @@ from iOpt.trial import Trial, Point, FunctionValue
 from vlib import scenario
 
 PHASE = []          # stack of phase markers: 'l' local refinement, 'p' listener probe
+LOCAL_CALLS = []    # one entry per DoLocalRefinement call: number of objective evaluations it made (filled by the phase wrapper)
 
 
 class BudgetAbort(BaseException):
@@ -42,6 +43,7 @@ def install_phase_wrappers():
 
     def DoLocalRefinement(self, *a, **k):
         PHASE.append("l")
+        LOCAL_CALLS.append(0)
         try:
             return orig(self, *a, **k)
         finally:
@@ -108,6 +110,8 @@ class RecordingProblem(Problem):
         self.log.append(ent)
         if ph == "g":
             self.ng += 1
+        elif ph == "l" and LOCAL_CALLS:
+            LOCAL_CALLS[-1] += 1
         if self.cap is not None and ph == "g" and self.ng > self.cap:
             self.budget_violation = True
             ent["exc"] = "BudgetAbort"
@@ -161,6 +165,8 @@ class ProxyProblem(Problem):
         self.log.append(ent)
         if ph == "g":
             self.ng += 1
+        elif ph == "l" and LOCAL_CALLS:
+            LOCAL_CALLS[-1] += 1
         if self.cap is not None and ph == "g" and self.ng > self.cap:
             self.budget_violation = True
             ent["exc"] = "BudgetAbort"
@@ -313,6 +319,7 @@ def run_solver(scn, listener=True, cap="auto", fault=None, after_step=None, insi
     """Run one scenario through the real Solver and return a Trace of boundary observations."""
     install_phase_wrappers()
     del PHASE[:]
+    del LOCAL_CALLS[:]
     t = Trace()
     if problem is None:
         hard = None
@@ -353,6 +360,7 @@ def run_solver(scn, listener=True, cap="auto", fault=None, after_step=None, insi
         else:
             raise
     t.log = problem.log
+    t.local_calls = list(LOCAL_CALLS)
     t.budget_violation = bool(getattr(problem, "budget_violation", False))
     t.final = snap_solution(solver.GetResults())
     t.swallowed = "Exception was thrown" in t.stdout
